@@ -720,19 +720,54 @@ func (c12) execDemux(f []string) (string, []Fail) {
 			stat("demux.accidental-hits")
 		} else {
 			stat("demux.expectation-checked")
-			fails = append(fails, c12Check(c, recs, "built", false)...)
-			// reads containing lone priming sites are reported under their own signature
-			sig := "symmetry"
+			// reads containing lone priming sites are reported under their own signatures
+			part := ""
 			for _, e := range c.exps {
 				if e.dir == "x" {
-					sig = "symmetry-partial"
+					part = "-partial"
 				}
 			}
-			rrecs, rres := run([]byte(c12Rc(string(c.seq))), true)
-			if !strings.HasPrefix(rres, "ok ") {
-				fails = append(fails, Fail{sig + ".abort", "reverse-complemented read: " + rres})
+			fails = append(fails, c12Check(c, recs, "built"+part, false)...)
+			rseq := []byte(c12Rc(string(c.seq)))
+			// on the other strand too the matcher must report the built primer instances only (among overlapping
+			// alignments of the same cost it keeps the leftmost one, which is not the same on both strands)
+			rforeign := false
+			guardT(10*time.Second, func() string {
+				s := obiseq.NewBioSequence(c.id, append([]byte{}, rseq...), "")
+				aseq, err := obiapat.MakeApatSequence(s, false)
+				if err != nil {
+					rforeign = true
+					return ""
+				}
+				for _, mk := range mks {
+					pf, pcf, pr, pcr := mk.VerifPatterns()
+					for k, pat := range []obiapat.ApatPattern{pf, pcf, pr, pcr} {
+						for _, l := range pat.AllMatches(aseq, 0, -1) {
+							if l[0] < 0 || l[1] > len(rseq) || l[0] > l[1] {
+								rforeign = true
+								continue
+							}
+							w := string(rseq[l[0]:l[1]])
+							if k == 1 || k == 3 {
+								w = c12Rc(w)
+							}
+							if !built[w] {
+								rforeign = true
+							}
+						}
+					}
+				}
+				return ""
+			})
+			if rforeign {
+				stat("demux.accidental-hits-rc")
 			} else {
-				fails = append(fails, c12Check(c, rrecs, sig, true)...)
+				rrecs, rres := run(rseq, true)
+				if !strings.HasPrefix(rres, "ok ") {
+					fails = append(fails, Fail{"symmetry" + part + ".abort", "reverse-complemented read: " + rres})
+				} else {
+					fails = append(fails, c12Check(c, rrecs, "symmetry"+part, true)...)
+				}
 			}
 		}
 	} else {
@@ -1345,6 +1380,9 @@ func (c12) Gen(rng *rand.Rand, tier string, emit func(string)) {
 	for _, c := range corpus {
 		emit(c.line())
 	}
+	// 6. lone sites F .. CF .. CR: the complemented-forward hit in between is not collected (no reverse hit) and F..CR comes
+	//    out as a barcode on the read itself
+	emit("demux c 13 -1 0 3 63747474746161637467746161616761616774677463 637461636363676163616363636363636374637463 3 3 0 0 0 0 i 0 1 0 0 5 6767747461 677463616767 73315f30 65787030 - 7474636763 616767677463 73315f31 65787031 - 7463677474 636374746761 73315f32 65787031 - 7463617474 677461616763 73315f33 65787031 - 7467617474 616767677463 73315f34 65787031 - 67746167636174746361746761637467 7474616161636174636167746374746774616774 3 3 0 0 0 0 i 0 1 0 0 4 6763747474746767 6161746161 73325f30 65787031 - 7463746761747474 6174617474 73325f31 65787030 - 6174746161616774 6174746367 73325f32 65787030 - 6174746161616774 6774676174 73325f33 65787031 - 74747467616763677463747463636174 74636161637474676767676374636767746767 3 3 0 0 0 0 i 0 1 0 0 5 7467677474 63616763 73305f30 65787031 - 6363677474 63676763 73305f31 65787031 - 6367677474 63636367 73305f32 65787030 - 6367677474 67637467 73305f33 65787031 - 7474676363 61636374 73305f34 65787030 - 7265616431 746774636774616163616767676174747463676363746363747474746161637467746161616761616774677463746163676361636163676367746367636767616361636167746361617463676161677467676167636761676767676767677467746367676774616161636767616363637463747463676763746361676767746374636163616761676363676761676361676774637474746774616774616167616361637474637474746163616774746161616167746167616174636161636761616374746363746767747461676167637474747461616374677474616167616167746774636174747461637463676374746163676774636361636361676761676167676767676767746774636767677461676163676363746761636774677461746174 cls c3 exp 3 - x 0 - - - 63747474746161637467746161616761616774677463 - 0 0 - x 0 - - - 63747474746161637467746161616761616774677463 - 0 0 - x 0 - - - - 637461636363676163616363636363636374637463 0 0")
 	// 5. three lone sites F .. R .. CR of one marker: nothing is extracted from the read, but on its reverse complement the
 	//    complemented-reverse hits are not even collected (no forward hit there) and F..CR comes out as a barcode
 	emit("demux c 16 0 0 1 74616163616161616363636161616163676763 67676174746361617461676167676174747467636163 2 0 0 0 0 0 h 1 1 0 0 2 746367746763 747461616367 73305f30 65787030 - 676167676763 616174676367 73305f31 65787031 - 7265616431 747474746763636361617467676761676767636163746161636161616163636361616161636767636367616761616161746374676363676367636161676361616363676361747467637461676367637474616163676767617474636161746167616767617474746763616363616361747463616361746367746763617461677467617461676363677474747467616374747474677474616761676361636761746361617467676167676763616774616167616161746363636161616163676774636774636763616363637463747467637467746167677467616367636763636774636374677474676167636361616167636767616367677467636161617463637463746174746761617463636367636174746774637474676374676361676763 cls c3 exp 3 - x 0 - - - 74616163616161616363636161616163676763 - 0 0 - x 0 - - - - 67676174746361617461676167676174747467636163 0 0 - x 0 - - - - 67676174746361617461676167676174747467636163 0 0")
